@@ -185,3 +185,31 @@ def _decode1(n, ch):
     if name == "ALGEBRAIC_CONSTANT":
         raise ValueError("algebraic constant")
     return (name, (), ch)
+
+
+def rebuild(env, node, args):
+    """A node with the operator / parameters of `node` over the FNodes `args` (constructor calls)."""
+    mgr = env.formula_manager
+    o = OPNAME[node.node_type()]
+    if not node.args() and not node.is_quantifier():
+        if o == "SYMBOL":
+            return mgr.Symbol(node.symbol_name(), node.symbol_type())
+        if o == "ARRAY_VALUE":
+            return mgr.Array(node.array_value_index_type(), args[0], {})
+        return node
+    a = list(args)
+    if o == "FUNCTION":
+        return mgr.Function(node.function_name(), a)
+    if o in ("FORALL", "EXISTS"):
+        return (mgr.ForAll if o == "FORALL" else mgr.Exists)(list(node.quantifier_vars()), a[0])
+    if o == "ARRAY_VALUE":
+        return mgr.Array(node.array_value_index_type(), a[0], dict(zip(a[1::2], a[2::2])))
+    if o == "BV_EXTRACT":
+        return mgr.BVExtract(a[0], node.bv_extract_start(), node.bv_extract_end())
+    if o in ("BV_ROL", "BV_ROR"):
+        return getattr(mgr, _PARAM1[o])(a[0], node.bv_rotation_step())
+    if o in ("BV_ZEXT", "BV_SEXT"):
+        return getattr(mgr, _PARAM1[o])(a[0], node.bv_extend_step())
+    if o in _NARY:
+        return getattr(mgr, _NARY[o])(a)
+    return getattr(mgr, _FIXED[o])(*a)
